@@ -1,5 +1,5 @@
 """C02 - SolveFailure is raised exactly when the hard constraints are unsatisfiable."""
-from .. import engine, fam_expr, fam_hist, fam_tree
+from .. import engine, fam_expr, fam_hist, fam_tree, fam_fault
 
 LEVEL = "model_checking"
 
@@ -12,7 +12,9 @@ def scenarios(tier, seed):
             + fam_hist.family_H(tier, seed, n=16 if tier == "quick" else 200)
             # ... and inside object trees: blocks of non-random members (and of anything below them) take no part, whatever
             # their current values
-            + fam_tree.family_T(tier, seed, n=10 if tier == "quick" else 120, probes=True, tag="T02") + fam_tree.family_nonrand_member(tier, seed))
+            + fam_tree.family_T(tier, seed, n=10 if tier == "quick" else 120, probes=True, tag="T02") + fam_tree.family_nonrand_member(tier, seed)
+            # unsatisfiable systems whose smallest conflict has 3..6 constraints, with the failure diagnostics on and off
+            + fam_fault.family_bigcore(tier, seed))
 
 
 def run(tier, seed, limit=0):
